@@ -18,12 +18,51 @@ def mk_fields(n):
     return f_enc, f_aux
 
 
-def mk_phase(n, method, theta):
+ANGLE_TYPES = ["int", "bool", "np.int64", "np.int32", "np.int16", "np.int8", "np.uint8", "np.uint16", "np.float64", "np.float32", "np.float16",
+               "np.longdouble", "Fraction", "Decimal", "0d-int", "0d-int32", "0d-float", "0d-float32", "np.bool_", "complex", "np.complex64"]
+LOW_PRECISION = {"np.float32": 1e-5, "0d-float32": 1e-5, "np.complex64": 1e-5, "np.float16": 1e-5}
+
+
+def typed_angle(v, tname):
+    """the number v as an object of the named type; None when the type cannot hold it exactly.  (Single / half precision
+    parameters give single-precision gate matrices - numpy evaluates cos / sin / exp in the precision of the argument -, so
+    results for them are compared at 1e-5; every other type at the usual 1e-9.)"""
+    import decimal
+    if tname is None:
+        return v
+    mk = {"int": int, "bool": bool, "np.int64": np.int64, "np.int32": np.int32, "np.int16": np.int16, "np.int8": np.int8,
+          "np.uint8": np.uint8, "np.uint16": np.uint16, "np.float64": np.float64, "np.float32": np.float32, "np.float16": np.float16,
+          "np.longdouble": np.longdouble, "Fraction": Fraction, "Decimal": lambda x: decimal.Decimal(repr(float(x))),
+          "0d-int": lambda x: np.array(int(x)), "0d-int32": lambda x: np.array(int(x), dtype=np.int32), "0d-float": lambda x: np.array(float(x)),
+          "0d-float32": lambda x: np.array(x, dtype=np.float32), "np.bool_": np.bool_, "complex": complex, "np.complex64": np.complex64}[tname]
+    try:
+        if tname in ("int", "bool", "np.bool_", "0d-int", "0d-int32") or tname.startswith("np.int") or tname.startswith("np.uint"):
+            if float(v) != int(v) or (tname in ("bool", "np.bool_") and v not in (0, 1)):
+                return None
+            if tname.startswith("np.") and tname != "np.bool_" and not (np.iinfo(mk).min <= int(v) <= np.iinfo(mk).max):
+                return None
+            t = mk(int(v))
+        else:
+            t = mk(v)
+        back = complex(t) if "complex" in tname else float(t)
+    except (OverflowError, ValueError, TypeError):
+        return None
+    return t if back == v else None
+
+
+def mk_phase(n, method, theta, via="ctor"):
+    """via: "ctor" - the angle is given to the constructor; "setter" - constructed with 0., then set_theta(theta);
+    "setter-over-int" - constructed with the integer 1, then set_theta(0.), set_theta(theta)"""
     import qib
     f_enc, f_aux = mk_fields(n)
     q_enc = [qib.field.Qubit(f_enc, j) for j in range(n)]
     q_aux = qib.field.Qubit(f_aux, 0)
-    proc = qib.algorithms.qubitization.ProjectorControlledPhaseShift(theta, n * [0], q_enc, q_aux, method)
+    first = theta if via == "ctor" else (0. if via == "setter" else 1)
+    proc = qib.algorithms.qubitization.ProjectorControlledPhaseShift(first, n * [0], q_enc, q_aux, method)
+    if via == "setter-over-int":
+        proc.set_theta(0.)
+    if via != "ctor":
+        proc.set_theta(theta)
     fields = [f_aux, f_enc] if method == "auxiliary" else [f_enc]
     return proc, fields
 
@@ -84,7 +123,27 @@ def as_sequence(thetas, seq_as):
         return [np.float64(t) for t in thetas]
     if seq_as == "int":
         return [int(t) for t in thetas]
+    if seq_as == "int-array":
+        return np.array([int(t) for t in thetas])
+    if seq_as == "int32-array":
+        return np.array([int(t) for t in thetas], dtype=np.int32)
+    if seq_as == "int-tuple":
+        return tuple(int(t) for t in thetas)
+    if seq_as == "object-array":
+        return np.array([int(t) if float(t) == int(t) else t for t in thetas], dtype=object)
+    if seq_as == "float32-array":
+        return np.array(thetas, dtype=np.float32)
+    if seq_as is not None and seq_as.startswith("each:"):        # every element an object of one scalar type
+        return [typed_angle(t, seq_as[5:]) for t in thetas]
+    if seq_as == "mixed":                                        # Python ints where the value is integral, floats elsewhere
+        return [int(t) if float(t) == int(t) else t for t in thetas]
     return list(thetas)
+
+
+def seq_tol(seq_as):
+    if seq_as == "float32-array" or (seq_as or "").startswith("each:") and seq_as[5:] in LOW_PRECISION:
+        return 1e-5
+    return 1e-8
 
 
 def mk_evt(L, H, enc_method, proc_method, thetas, opspec=None, seq_as=None):
@@ -106,7 +165,7 @@ def rand_unitary(rng, d):
     return q * (np.diag(r) / np.abs(np.diag(r)))
 
 
-def mk_evt_multi(nenc, L, V, proc_method, thetas):
+def mk_evt_multi(nenc, L, V, proc_method, thetas, seq_as=None):
     """eigenvalue transformation around a user-defined block encoding with nenc >= 2 encoding qubits
     (a GeneralGate with the three attributes EigenvalueTransformation reads), so that the cascaded
     c-phase / the (nenc)-fold controlled X are exercised INSIDE the eigenvalue transformation"""
@@ -136,7 +195,7 @@ def mk_evt_multi(nenc, L, V, proc_method, thetas):
     q_sys = [qib.field.Qubit(f_sys, j) for j in range(L)]
     block = MultiEnc(V, q_enc, q_sys)
     proc = qib.algorithms.qubitization.ProjectorControlledPhaseShift(0., nenc * [0], q_enc, q_anc, proc_method)
-    et = qib.algorithms.qubitization.EigenvalueTransformation(block, proc, theta_seq=list(thetas))
+    et = qib.algorithms.qubitization.EigenvalueTransformation(block, proc, theta_seq=as_sequence(thetas, seq_as))
     return et, block, proc, [f2, f_sys]
 
 
@@ -243,10 +302,14 @@ def alt_product(P, U, Ui, n):
 
 
 # ------------------------------------------------------------------------------ oracles on the implementation
-def oracle_phase(ctx, n, method, theta):
-    """returns (M, fields, circuit) ; reports violations of the phase-shift clause"""
-    proc, fields = mk_phase(n, method, theta)
+def oracle_phase(ctx, n, method, theta, theta_type=None, via="ctor"):
+    """returns (M, fields, circuit) ; reports violations of the phase-shift clause.  theta is a float; theta_type names the type
+    of the object handed to the library (typed_angle), via how it gets there (mk_phase)"""
+    TOL = LOW_PRECISION.get(theta_type, globals()["TOL"])
+    proc, fields = mk_phase(n, method, typed_angle(theta, theta_type), via)
     inp = {"kind": "phase", "n": n, "method": method, "theta": theta}
+    if theta_type is not None or via != "ctor":
+        inp.update(theta_type=theta_type, via=via)
     ref = shift_ref(n, theta)
     am = np.asarray(proc.as_matrix())
     if am.shape != ref.shape or not np.allclose(am, ref, atol=TOL):
@@ -281,9 +344,12 @@ def oracle_evt(ctx, L, H, enc_method, proc_method, thetas, nenc=1, V=None, opspe
         if seq_as is not None:
             inp["seq_as"] = seq_as
     else:
-        et, block, proc, fields = mk_evt_multi(nenc, L, V, proc_method, thetas)
+        et, block, proc, fields = mk_evt_multi(nenc, L, V, proc_method, thetas, seq_as)
         inp = {"kind": "evt", "L": L, "V": cplx_list(V), "nenc": nenc, "enc_method": "general", "proc_method": proc_method,
                "thetas": list(thetas)}
+        if seq_as is not None:
+            inp["seq_as"] = seq_as
+    tol = seq_tol(seq_as)
     n = len(thetas)
     cls = "len=1" if n == 1 else ("odd len>=3" if n % 2 else ("len=2" if n == 2 else "even len>=4"))
     M = np.asarray(et.as_matrix())
@@ -292,14 +358,14 @@ def oracle_evt(ctx, L, H, enc_method, proc_method, thetas, nenc=1, V=None, opspe
     idL = np.identity(2 ** L)
     P = [np.kron(shift_ref(nenc, th), idL) for th in thetas]
     ref = alt_product(P, U, Ui, n)
-    if M.shape != ref.shape or not np.allclose(M, ref, atol=1e-8):
+    if M.shape != ref.shape or not np.allclose(M, ref, atol=tol):
         ctx.fail("evt:as_matrix != alternating product P(th0) U^-+ ... P(th_last) U (%s)" % cls, inp,
                  "product with one phase shift per angle", "max dev %.3g" % (np.abs(M - ref).max() if M.shape == ref.shape else -1))
     # depends on every angle
     for k in range(n):
         th2 = list(thetas)
         th2[k] = th2[k] + 0.4375
-        et.set_theta_seq(as_sequence(th2, seq_as if seq_as != "int" else None))
+        et.set_theta_seq(as_sequence(th2, seq_as if seq_as in ("tuple", "array", "np-scalars") else None))
         M2 = np.asarray(et.as_matrix())
         if np.abs(M2 - M).max() < 1e-6:
             ctx.fail("evt:as_matrix does not depend on an angle (%s)" % cls, dict(inp, angle_index=k),
@@ -313,11 +379,11 @@ def oracle_evt(ctx, L, H, enc_method, proc_method, thetas, nenc=1, V=None, opspe
         ctx.fail("evt:as_circuit contains a gate that is neither the encoding nor its inverse (%s)" % cls, inp)
     C = circ.as_matrix(fields).toarray()
     d = 2 ** (L + nenc)
-    if not np.allclose(C[:d, :d], M, atol=1e-8):
+    if not np.allclose(C[:d, :d], M, atol=tol):
         ctx.fail("evt:circuit aux-|0> block != as_matrix (%s)" % cls, inp, None, "max dev %.3g" % np.abs(C[:d, :d] - M).max())
-    if not np.allclose(C[:d, :d], ref, atol=1e-8):
+    if not np.allclose(C[:d, :d], ref, atol=tol):
         ctx.fail("evt:circuit aux-|0> block != alternating product (%s)" % cls, inp, None, "max dev %.3g" % np.abs(C[:d, :d] - ref).max())
-    if not np.allclose(C[d:2 * d, :d], 0, atol=1e-8):
+    if not np.allclose(C[d:2 * d, :d], 0, atol=tol):
         ctx.fail("evt:circuit leaks out of the aux-|0> block (%s)" % cls, inp)
     return et, block, proc, letters, M, U, Ui
 
@@ -1137,6 +1203,67 @@ def run(ctx):
             oracle_only({"kind": "evt", "len": len(thetas), "L": Lk, "enc": enc_method, "proc": proc_method, "thetas": thetas,
                          "variant": seq_as or (spec["kind"] if isinstance(spec, dict) else "special-H %d" % k)}, True)
 
+    # ---------------------------------------------------------------- the TYPE of every angle parameter
+    ctx.rules.append("angle types: every angle parameter of the qubitization classes (ProjectorControlledPhaseShift theta through the constructor, "
+                     "set_theta, set_theta after an integer-typed construction; EigenvalueTransformation theta_seq) as Python int / bool / Fraction / "
+                     "Decimal / complex, numpy int8-64, uint8/16, float16/32/64, longdouble, bool_, complex64, 0-d arrays; sequences as int lists, "
+                     "tuples, int64 / int32 / object / float32 arrays, lists of numpy scalars, ints mixed with floats; n = 1..%d encoding qubits, both "
+                     "methods (EVT: library encodings and a user-defined encoding with 2-4 encoding qubits, so that the cascaded c-phase runs on integer "
+                     "angles); values integral (1, 2, 3, -1, 5, 4, -6, 0) resp. dyadic. The library either refuses the object (exception: counted, "
+                     "no claim) or the result equals the numpy reference for float(value) (1e-9; 1e-5 for single / half precision parameters)"
+                     % (6 if deep else 5))
+    ivals, fvals = [1, 3, 2, -1, 5, 4, -6, 0], [0.375, -1.25, 3.0, 1.0, 2.5]
+    vias = ["ctor", "setter", "setter-over-int"]
+    k = 0
+    for tname in ANGLE_TYPES:
+        for n in range(1, (6 if deep else 5) + 1):
+            for method in ("c-phase", "auxiliary"):
+                k += 1
+                integral = typed_angle(0.375, tname) is None
+                pool = ivals if integral else fvals
+                chosen = [pool[k % len(pool)], pool[(k + 3) % len(pool)]] + ([pool[(k + 1) % len(pool)]] if ctx.thorough else [])
+                for j, v in enumerate(chosen):
+                    v = float(v)
+                    if typed_angle(v, tname) is None:
+                        v = 1.0
+                    via = vias[(k + j) % 3]
+                    desc = {"kind": "phase", "n": n, "method": method, "theta": v, "theta_type": tname, "via": via}
+                    try:
+                        oracle_phase(ctx, n, method, v, tname, via)
+                    except Exception as e:
+                        ctx.count("angle_type_refused:%s:%s" % (tname, type(e).__name__))
+                        continue
+                    ctx.count("angle_type_accepted:%s" % tname)
+                    oracle_only(desc, n >= 2 and v != 0)
+    seq_kinds = ["int", "int-array", "int32-array", "int-tuple", "object-array", "mixed", "float32-array", "each:np.int64", "each:np.int8", "each:bool",
+                 "each:np.float32", "each:Fraction", "each:0d-int", "each:np.longdouble"]
+    iseqs = [[1.0, 3.0, -1.0], [5.0, 2.0], [1.0, 1.0, 2.0, 3.0], [3.0], [2.0, -1.0, 4.0, 1.0, 1.0]]
+    k = 0
+    for seq_as in seq_kinds:
+        for nenc in ((1, 2, 3, 4) if deep else (1, 2, 3)):
+            for proc_method in ("c-phase", "auxiliary"):
+                k += 1
+                thetas = iseqs[k % len(iseqs)]
+                if seq_as == "each:bool":
+                    thetas = [float(abs(t) % 2) for t in thetas]
+                elif seq_as in ("float32-array", "each:np.float32", "each:np.longdouble", "mixed"):
+                    thetas = [t + (0.375 if i % 2 else 0.0) for i, t in enumerate(thetas)]
+                ctx.count("evt_angle_type_%s" % seq_as)
+                try:
+                    if nenc == 1:
+                        enc_method = ("Wx", "Wxi", "R")[k % 3]
+                        Hm = rand_herm(rng, 1)
+                        oracle_evt(ctx, 1, Hm, enc_method, proc_method, thetas, seq_as=seq_as)
+                    else:
+                        enc_method = "general"
+                        oracle_evt(ctx, 1, None, "general", proc_method, thetas, nenc=nenc, V=rand_unitary(rng, 2 ** (nenc + 1)), seq_as=seq_as)
+                except Exception as e:
+                    ctx.count("angle_type_refused:seq:%s:%s" % (seq_as, type(e).__name__))
+                    continue
+                ctx.count("angle_type_accepted:seq:%s" % seq_as)
+                oracle_only({"kind": "evt", "len": len(thetas), "L": 1, "enc": enc_method, "nenc": nenc, "proc": proc_method, "thetas": thetas,
+                             "variant": "angle type " + seq_as}, True)
+
     if words is not None:
         ctx.evaluations += nword
         ctx.traces += nword
@@ -1237,14 +1364,15 @@ def replay(ctx, data):
     inp, sig = data["input"], data["sig"]
     before = len(ctx.failing)
     if inp.get("kind") == "phase":
-        oracle_phase(ctx, inp["n"], inp["method"], inp["theta"])
+        oracle_phase(ctx, inp["n"], inp["method"], inp["theta"], inp.get("theta_type"), inp.get("via", "ctor"))
     elif inp.get("kind") == "phase-history":
         oracle_phase_history(ctx, inp["W"], inp["init"], inp["ops"])
     elif inp.get("kind") == "evt-history":
         oracle_evt_history(ctx, inp["W2"], inp["L"], inp["init"], inp["ops"])
     elif inp.get("kind") == "evt":
         if "V" in inp:
-            oracle_evt(ctx, inp["L"], None, "general", inp["proc_method"], inp["thetas"], nenc=inp["nenc"], V=from_cplx_list(inp["V"]))
+            oracle_evt(ctx, inp["L"], None, "general", inp["proc_method"], inp["thetas"], nenc=inp["nenc"], V=from_cplx_list(inp["V"]),
+                       seq_as=inp.get("seq_as"))
         else:
             oracle_evt(ctx, inp["L"], from_cplx_list(inp["H"]) if inp.get("H") is not None else None, inp["enc_method"], inp["proc_method"],
                        inp["thetas"], opspec=inp.get("op"), seq_as=inp.get("seq_as"))
